@@ -1,6 +1,7 @@
 """C06 — broadcasting follows NumPy's rules and is symmetric, associative, idempotent."""
-import itertools, re
+import itertools, re, sys
 from collections import Counter
+from harness.props import c09
 
 ID = "C06"
 MODEL_MODULES = ["Base", "Index", "Broadcast"]
@@ -11,13 +12,15 @@ CLAIM = dict(
           "neutral; the variadic form is invariant under any permutation and any split of the operand list; shape_broadcast_to "
           "accepts exactly NumPy's one-directional rule and element i of broadcast_to is the source element with stretched axes "
           "read at 0 and prepended axes dropped (and that index is in bounds). Tied to the C++ by running index::broadcast_shape "
-          "(2/3/4 operands, 6 container kinds), index::shape_broadcast_to, view::broadcast_to / array::broadcast_to and "
+          "(2/3/4 operands, 6 container kinds; plus generated translation units instantiating it for 11 container kinds and 26 mixed "
+          "pairs incl. compile-time constants, clipped integers, tight static_vector, utl::tuple, constexpr evaluation, on compatible, "
+          "two-sided and incompatible shape pairs of unequal rank), index::shape_broadcast_to, view::broadcast_to / array::broadcast_to and "
           "view::broadcast_arrays on all pairs of small shapes (compatible or not) and every element of every result."),
     ref="5.6", technique="Coq proof (induction on right-aligned shapes) + differential correspondence with the extracted model", extra="")
 RULE = ("all ordered pairs of shapes dim 0..3 extents 1..3 (quick; thorough: dim 0..4, extents 1..4 sampled to 40k pairs) through "
         "index::broadcast_shape with rotating container kinds; seeded triples/quadruples; shape_broadcast_to on all pairs; "
         "view/array broadcast_to and broadcast_arrays element-by-element on compatible and incompatible pairs. "
-        "non-trivial = some operand of dim >= 2 with an extent > 1; distinct = distinct case lines")
+        "48 (thorough 200) seeded shape pairs x every container kind and mixed pair (generated). non-trivial = some operand of dim >= 2 with an extent > 1; distinct = distinct case lines")
 KINDS = ["vec", "veci", "sv", "arr", "arri", "tup"]
 THEOREM_STATUS = {"proved": ["C06_binary_rule", "C06_algebra", "C06_nary_order_and_grouping", "C06_broadcast_to_shape",
                              "C06_broadcast_to_element"], "partial": [], "refuted": []}
@@ -25,7 +28,14 @@ ASSUMPTIONS = ["extents are positive (a 0 extent breaks associativity: Example C
 
 
 def drivers(tier):
-    return {"c06": [("c06.cpp", "ndebug", ()), ("c06.cpp", "asan", ("-DVD_LIGHT",))]}
+    # "c09k": GENERATED translation units (C09's machinery) calling index::broadcast_shape once per container kind and per MIXED
+    # pair of kinds — compile-time constants, clipped integers, std::array, static_vector (loose and tight), utl::vector, std::tuple,
+    # utl::tuple, raw arrays, constexpr evaluation — which a run-time dispatching driver cannot express
+    return {"c06": [("c06.cpp", "ndebug", ()), ("c06.cpp", "asan", ("-DVD_LIGHT",))], "c09k": c09.drivers(tier)["c09"]}
+
+
+def model_for(dkey):
+    return c09 if dkey == "c09k" else sys.modules[__name__]
 
 
 def L(v): return "L:" + ",".join(str(x) for x in v)
@@ -74,10 +84,13 @@ def gen_cases(rng, tier):
         k = rng.choice(["vec", "veci", "sv"])
         add("nary", "bshape3 S:%s %s %s %s" % (k, L(tr[0]), L(tr[1]), L(tr[2])))
         add("nary", "bshape4 %s %s %s %s" % (L(tr[0]), L(tr[1]), L(tr[2]), L(tr[3])))
+    for line in c09.gen_for(["bshape"], 48 if tier == "quick" else 200, rng, tier):
+        out.append(("kinds-generated", line, "c09k"))
     return out
 
 
 def nontrivial(line):
+    if line.startswith("g "): return c09.nontrivial(line)
     for m in re.findall(r"(?:L:|A:)([0-9,]*)", line):
         sh = [int(x) for x in m.split(",") if x]
         if len(sh) >= 2 and any(x > 1 for x in sh): return True
@@ -94,4 +107,7 @@ def distribution(streams):
 
 
 def classify(line, impl, spec, model):
+    if line.startswith("g "):
+        cls = c09.classify(line, impl, spec, model)
+        return ("kinds:" + cls) if cls else None
     return None
